@@ -26,7 +26,7 @@ theorem exChain_inv : Inv exCfg exChain := by
 /-- the five-step history of defect D3 (DESIGN.md section 6) -/
 def d3History : List Op :=
   [.delegate "d1" "v1" ⟨"TOKEN", 2⟩, .delegate "d2" "v1" ⟨"TOKEN", 10⟩, .undelegate "d1" "v1" ⟨"TOKEN", 1⟩,
-   .slash "v1" ⟨500000000000000000⟩, .advance 61, .advance 1, .delegate "d2" "v1" ⟨"TOKEN", 1⟩]
+   .slash "v1" ⟨500000000000000000⟩, .advance 61000000000, .advance 1000000000, .delegate "d2" "v1" ⟨"TOKEN", 1⟩]
 
 end Staking
 end CwMt
